@@ -1,12 +1,11 @@
 SPECIFICATION Spec
 CONSTANTS Keys = {1}
-          MaxVal = 0
-          N = 4
-          BaseMax = 0
-          Workers = {1, 2, 3, 4}
-          SchedMuts = FALSE
+          MaxVal = 1
+          N = 3
+          BaseMax = 1
+          Workers = {1, 2, 3}
+          SchedMuts = TRUE
           Sched = TRUE
-          EmitCases = TRUE
+          EmitCases = FALSE
 INVARIANTS HonestAccepted ParallelEqualsSequential WrongBALRejected ScheduleIndependent CacheIsBase WorkerBound HistLegal
-CONSTRAINT Emit
 CHECK_DEADLOCK FALSE
